@@ -104,7 +104,7 @@ PROPS["C17"] = P(["codec", "driver"],
     assumptions=["tokio-util FramedRead appends the bytes read and calls decode until it returns None", "std slice iteration semantics (env model)"],
     not_covered=["MultiLineCodec::encode", "the plugin driver loop (src/cln_plugin/mod.rs)", "logging writer"])
 
-PROPS["C19"] = P(["config", "provider"],
+PROPS["C19"] = P(["config", "provider", "initopts"],
     "Proof (Verus) on two E6 slices of main() (src/main.rs): (a) from the first cp.option(..) to the construction of the payment provider, (b) the statement that builds HtlcManager::new(HtlcManagerParams{..}): it refuses to start iff a value is out of its target range or policy delta <= safety delta; otherwise safety delta, advertised/enforced policy, MPP timeout, self-route-hint flag, payment timeout and xpay equal the configured values (options are distinct opaque tokens, so a swapped option is a failed obligation). PayPaymentProvider::new caps the retry time at 65535 s.",
     "Trusted: " + TB_COMMON + " env/config_env.rs (ConfiguredPlugin::option returns the value CLN delivered: uninterpreted cfg_*; E11: option descriptors become opaque distinct tokens, name/default/description dropped). HtlcManager::new is verified to store the parameters as given; PayPaymentProvider::new enters under its contract (proved in unit provider). The statements of main() between the two slices (block watcher start, store, e-mail service) are not under contract; that the locals flowing from slice (a) into slice (b) are the same is plain data flow of main() (no reassignment), checked by rustc's immutability (the locals are not `mut`).",
     assumptions=["CLN delivers the option values (handle_init) as configured"],
